@@ -7,9 +7,9 @@ struct Wrapped<T, M> { items: std::vec::IntoIter<T>, _m: M }
 impl<T, M> Iterator for Wrapped<T, M> { type Item = T; fn next(&mut self) -> Option<T> { self.items.next() } }
 fn main() {
     let col: Vec<String> = vec![String::from("a"), String::from("b"), String::from("c")];
-    let it = col.con_iter();
-    let r = it.next();
+    let it = col.into_iter().into_con_iter();
     let mut b = it.buffered_iter(2);
     let k2 = b.next();
-    if let Some(x) = r { let _y = x.clone(); }
+    let k1 = b.next();
+    if let Some(x) = k2 { let _n = x.values.count(); }
 }
